@@ -1000,8 +1000,10 @@ namespace fixedmath
       result = atan_sum<prec_, atan_11o16, _11o16>( x );
     else if( x < _39o16 )
       result = atan_sum<prec_, atan_19o16, _19o16>( x );
-    else
+    else if( x < (fixed_internal{1}<<32) )
       result = atan_sum<prec_, atan_39o16, _39o16>( x );
+    else //atan(x) is closer to phi/2 than one unit, and x*c in atan_sum overflows for x >= 2^45
+      result = fixpidiv2.v;
     
     if( !sign_)
       return as_fixed(result);
